@@ -2,6 +2,7 @@
 //! Prints one JSON object; exit status 0 = no failing input found, 1 = failing inputs found, 2 = the harness could not run.
 mod applic;
 mod aspsem;
+mod crash;
 mod dom;
 mod external;
 mod files;
@@ -133,6 +134,13 @@ fn run_subst(deep: bool) -> (String, Vec<trans::Failure>) {
     (format!("\"substitutions\": {}, \"skipped_not_exactly_evaluable\": {}", pairs, skipped), fails)
 }
 
+fn run_crash(deep: bool) -> (String, Vec<trans::Failure>) {
+    let mut runs = 0;
+    let mut fails = Vec::new();
+    crash::check(deep, &mut runs, &mut fails);
+    (format!("\"anthem_runs\": {}", runs), fails)
+}
+
 fn run_trans(deep: bool) -> (String, Vec<trans::Failure>) {
     let corpus = trans::corpus(deep);
     let n_interp = if deep { 160 } else { 40 };
@@ -177,6 +185,7 @@ fn main() {
         "files" => run_files(deep),
         "applic" => run_applic(deep),
         "subst" => run_subst(deep),
+        "crash" => run_crash(deep),
         _ => { eprintln!("usage: bounded trans [--deep]"); std::process::exit(2); }
     };
     let harness_broken = fails.iter().any(|f| f.property == "harness");
